@@ -57,6 +57,7 @@ type Observed struct {
 	Ambiguous string   `json:"ambiguous,omitempty"` // the schedule could not be reconstructed unambiguously: case discarded
 	Err       string   `json:"err,omitempty"`       // the stream did not complete
 	Posted    int      `json:"posted"`
+	TapLens   []int    `json:"tap_lens,omitempty"` // lengths of the hand-offs (kept when the bytes are dropped from a report)
 }
 
 // genBytes: bytes [off, off+n) of the input with the given seed; Corr/C17.v [gen] computes the same.
@@ -252,7 +253,7 @@ func corpus(tier string) []Stream {
 		{Kind: "tcp", Name: "tcp-truncation", Seed: 67, MaxFrame: 64,
 			Bursts:    []Burst{{Chunks: []int{200}, GapUs: []int{0}, PauseMs: 20}, {Chunks: []int{64}, GapUs: []int{0}, PauseMs: 20}, {Chunks: []int{65}, GapUs: []int{0}, PauseMs: 20}, {Chunks: []int{10}, GapUs: []int{0}, PauseMs: 20}},
 			Consumers: []ConsSpec{{Cap: 1000, Policy: "hand", Hold: 1}}},
-		{Kind: "ts", Name: "ts-truncation-1.3MB", Seed: 68, MaxFrame: 1024000,
+		{Kind: "ts", Name: "ts-truncation-1300kB", Seed: 68, MaxFrame: 1024000,
 			Bursts:    []Burst{{Chunks: []int{700000, 600000}, GapUs: []int{0, 0}, PauseMs: 40}, {Chunks: []int{500}, GapUs: []int{0}, PauseMs: 10}},
 			Consumers: []ConsSpec{{Cap: 2, Policy: "queue", Hold: 1}}},
 	}
